@@ -19,7 +19,7 @@ MANIFEST = {
 
 FAMILIES = ["set_laws", "set_applies_to", "ctor"]
 BOUNDS = {"quick": {"universes": 2, "law_sets": 3, "bmc_depth": 3}, "thorough": {"universes": 3, "law_sets": 4, "bmc_depth": 4}}
-TIME_BUDGET = {"quick": 300, "thorough": 1800}
+TIME_BUDGET = {"quick": 300, "thorough": 1200}
 STUBS = ["types.MappingProxyType -> read-only view of a dict", "uuid.uuid4 -> fresh distinct integer"]
 ASSUMPTIONS = ["pool bound on universes / law sets before the step", "UniverseLaws(applies_to=...) is not part of the quantified histories"]
 EXPLANATION = "inductive step + bounded histories over the two mutually recursive setters"
